@@ -328,7 +328,7 @@ def run_property(pid, tier, seed):
             for k, v in ex.get("labels", {}).items():
                 agg["labels"][k] = agg["labels"].get(k, 0) + v
             for v in ex.get("violations", []):
-                k = match_known(known, v["sig"])
+                k = match_known(known, v["sig"], v.get("labels", []))
                 if k is not None:
                     agg["known_hits"][k["signature"]] = agg["known_hits"].get(k["signature"], 0) + 1
                 else:
